@@ -301,6 +301,9 @@ func execBloom(c Case) string {
 // ------------------------------------------------------------------ generators
 
 func genItem(r *Rng) []byte {
+	if r.Intn(40) == 0 {
+		return r.Bytes(r.Pick(255, 256, 257, 300, 520))
+	}
 	return r.Bytes(r.Pick(0, 1, 2, 3, 4, 5, 6, 7, 8, 20, 32, 33, 36, 65, r.Intn(80)))
 }
 
@@ -343,6 +346,9 @@ func genC09(r *Rng, tier string, emit func(Case)) {
 			}
 			e("murmur", "high", u64s(uint64(seed)), hx(b))
 		}
+	}
+	for _, l := range []int{127, 128, 129, 255, 256, 257, 258, 259, 511, 512, 513, 65535, 65536, 65537} {
+		e("murmur", "long", u64s(uint64(uint32(r.U64()))), hx(r.Bytes(l)))
 	}
 	for i := 0; i < n; i++ {
 		e("murmur", "rand", u64s(uint64(uint32(r.U64()))), hx(genItem(r)))
